@@ -2309,6 +2309,9 @@ pub fn c12(args: &Args) -> Report {
     // part 4: the VFS layer
     let mut dev = FuseDev::new();
     c12_vfs(&mut rep, &mut idx, &mut dev);
+    // part 5: the passthrough (standalone, behind a Vfs) and overlay layers
+    #[cfg(not(feature = "asyncio"))]
+    crate::engines::ptfs_eng::c12_layers(&mut rep, &mut idx);
     rep.set("total_cases_all_shards", json!(idx));
     rep.set("option_bits", json!(bits.len()));
     rep
